@@ -84,6 +84,7 @@ type upstreamSrv struct {
 	serial int
 	up     bool
 	health int // count of health checks seen
+	custom http.HandlerFunc // replaces the scripted handler (set before traffic starts)
 }
 
 func newUpstream(name string) *upstreamSrv {
@@ -231,6 +232,13 @@ func decodeBody(enc string, data []byte) ([]byte, error) {
 }
 
 func (u *upstreamSrv) handle(w http.ResponseWriter, r *http.Request) {
+	u.mu.Lock()
+	custom := u.custom
+	u.mu.Unlock()
+	if custom != nil && r.URL.Path != "/health" {
+		custom(w, r)
+		return
+	}
 	if r.URL.Path == "/health" || r.Header.Get("X-Spec") == "" && r.URL.Path == "/ping" {
 		u.mu.Lock()
 		u.health++
